@@ -617,7 +617,73 @@ def forall_guards(prog, f, its, B):
             continue
         fl = flags.get(s["root"]) or flags.get(f.copy_root(s["root"]))
         if fl is not None and fl["how"] != "all(..)":
+            if fl["how"].startswith("conjunction flag") and not flag_read_after_full_run(f, fl["it"], sb):
+                continue
             out.append({"it": fl["it"], "cmp": fl["cmp"], "how": fl["how"] + " is true"})
+    return out
+
+
+def flag_read_after_full_run(f, it, sb):
+    """a flag accumulated in loop `it` and tested at sb speaks for every element only if no early exit of the loop reaches sb"""
+    if it.kind != "loop":
+        return True
+    for (b, s_) in it.early_exits():
+        dead = an.infeasible_edges_from(f, s_, None)
+        if sb in an.reachable_with_edges_removed(f, s_, set(), dead):
+            return False
+    return True
+
+
+def exists_guards(prog, f, its, B):
+    """Ways in which `some element of an iteration makes a comparison of element parts true` is established at block B of f:
+         it.all(|x| cmp) on the false edge (NEG cmp);  it.any(|x| cmp) on the true edge;  find / position on the Some edge;
+         a loop left early on an edge of a per-element comparison, B reached only through that edge (value provenance included:
+         `return Kind::TooFew` in an (inlined) helper followed by `match kind { TooFew => B }`);
+         a conjunction or violation flag tested on its false edge.
+       Returns [dict(it, cmp normalised, how)]"""
+    out = []
+    for it in its:
+        if it.parent is not f:
+            continue
+        if it.kind == "closure" and it.consumer in ("all", "any", "find", "position"):
+            c = _closure_single_cmp(it)
+            if c is None:
+                continue
+            for sb, s in an.switches_on_call_result(f, it.bb):
+                st = f.term(sb)
+                if it.consumer == "all":
+                    edge, holds = an.edge_target(st, 0), (NEG[c[0]], c[1], c[2])
+                elif it.consumer == "any":
+                    edge, holds = st["otherwise"], c
+                else:
+                    edge, holds = an.variant_target(f, sb, "Some"), c
+                if edge is not None and an.dominated_by_edge(f, sb, edge, B):
+                    out.append({"it": it, "cmp": norm_cmp(holds), "how": "%s(..) %s" % (it.consumer, "is false" if it.consumer == "all" else "finds one")})
+        elif it.kind == "loop":
+            if B in it.loop_blocks:
+                continue
+            for sb, st in it.switches():
+                r = _cmp_of_switch(f, it, sb, st)
+                if r is None:
+                    continue
+                c, t_true, t_false = r
+                for tgt, holds in ((t_true, c), (t_false, (NEG[c[0]], c[1], c[2]))):
+                    if tgt is None:
+                        continue
+                    # the edge leaves the loop for good
+                    if it.bb in f.reachable_from(tgt) or it.switch_bb in f.reachable_from(tgt):
+                        continue
+                    if an.dominated_by_edge(f, sb, tgt, B):
+                        out.append({"it": it, "cmp": norm_cmp(holds), "how": "the loop is left at the first element for which it is true, and B is reached only from there"})
+    flags = forall_flags(prog, f, its)
+    for sb, st in f.switches():
+        s = an.switch_subject(f, sb)
+        if s["kind"] != "value" or s["root"] is None or not an.dominated_by_edge(f, sb, an.edge_target(st, 0), B):
+            continue
+        fl = flags.get(s["root"]) or flags.get(f.copy_root(s["root"]))
+        if fl is not None and fl["how"] != "all(..)":
+            c = fl["cmp"]
+            out.append({"it": fl["it"], "cmp": norm_cmp((NEG[c[0]], c[1], c[2])), "how": fl["how"] + " is false"})
     return out
 
 
